@@ -476,18 +476,50 @@ pub fn run_c03(report: &Report, tier: &Tier) {
         "browser scenarios: 1..3 scripted services (TTLs from {1,2,3,10,120,4500} s per record type, shared or separate hosts, several \
          addresses, v4/v6), 2..9 events among announce / split announce / update with cache-flush (port, TXT, address) / goodbye / partial \
          goodbye / vanish / verify / foreign records, responders answering the daemon's queries never / always / sometimes, deliveries with \
-         loss, duplication and delay, horizon 3 x largest TTL; lazy, eager and oversleep stepping; distinct by (shape, event kinds)",
+         loss, duplication and delay, horizon 3 x largest TTL; lazy, eager and oversleep stepping; plus the two-interface scenarios of C18 part P (an interface lost or switched off) judged for the interface tags of the addresses shown; distinct by (shape, event kinds)",
     );
     report.assume("records keep one spelling and one cache-flush setting per identity (PTR shared, SRV/TXT/address unique), so 'the same record' is unambiguous");
-    for r in ["S1", "S2", "S3", "S4"] {
+    for r in ["S1", "S2", "S3", "S4", "S2-interface-loss"] {
         report.floor(r, 100);
     }
     let seed = report.seed;
     let n: u64 = if tier.thorough { 250_000 } else { 4_000 };
     let opts = Opts::default();
-    run_parallel(report, n, threads(), tier.budget_s, |i, l| {
+    run_parallel(report, n, threads(), tier.budget_s * 0.9, |i, l| {
         run_one(util::mix(seed, 0xC03_0000 + i), "C03", &opts, l);
     });
+    // addresses and the interfaces they were received on, when one of two interfaces goes
+    let np: u64 = if tier.thorough { 20_000 } else { 400 };
+    run_parallel(report, np, threads(), tier.budget_s * 0.1, |i, l| {
+        interface_loss_case(util::mix(seed, 0xC03_9000 + i), "C03", l);
+    });
+}
+
+/// The interface-loss scenarios of C18 part P (instances learned over two interfaces, one of which goes
+/// away or is switched off), judged for the clauses of C03 and C05 that speak of interfaces: an address
+/// is shown with the interface(s) it was received on and only while that reception stands (S2); an instance
+/// that still has a live PTR, SRV and address on an interface that is left is not reported removed (D5).
+pub fn interface_loss_case(seed: u64, which: &str, l: &mut Local) {
+    use crate::props::c18;
+    let made = c18::scenario_p(seed);
+    l.evaluations += 1;
+    l.count("daemon_iterations", made.world.total_iterations);
+    if made.world.trace.deaths().any(|d| matches!(d.ev, Ev::Death { panicked: true, .. })) {
+        l.inconclusive.push(format!("daemon died in an interface-loss scenario (seed {seed})"));
+        return;
+    }
+    l.distinct.insert(util::fnv_str(&format!("P|{:?}|{}|{}", made.loss, made.lost, made.second_loss.is_some())));
+    let mut found = Local::default();
+    c18::monitor_p(&made, &mut found);
+    l.act(if which == "C05" { "D5-interface-loss" } else { "S2-interface-loss" });
+    for v in found.violations {
+        let class = v.signature.rsplit('/').next().unwrap_or("").to_string();
+        if which == "C05" && v.signature.starts_with("I4/ServiceRemoved-for-instance-known-elsewhere/") {
+            l.violate(Violation::new("D5", format!("D5/removed-while-live-on-another-interface/{class}"), v.message).with(v.witness));
+        } else if which == "C03" && (v.signature.contains("/address-learned-on-lost-link-still-reported/") || v.signature.starts_with("I4/resolved-again-with-wrong-addresses/")) {
+            l.violate(Violation::new("S2", format!("S2/address-from-dead-or-other-interface-record/after-interface-loss/{class}"), v.message).with(v.witness));
+        }
+    }
 }
 
 /// D4 in isolation: one resolved instance with long TTLs, nothing else going on, a verify
@@ -552,16 +584,17 @@ pub fn run_c05(report: &Report, tier: &Tier) {
          refresh queries answered or not, lossy deliveries) with TTLs 1 s .. 4500 s and horizons of 3 x the largest TTL; every ServiceRemoved and \
          every departure instant computed from the delivered-record history is judged; plus verify requests in isolation (one resolved instance, \
          timeouts {1, 250, 400, 999, 1000, 1001, 1500, 2500, 2750, 4321 ms, 10 s}, answered in time or not): removal at the timeout to the millisecond; \
+         plus the two-interface scenarios of C18 part P: no ServiceRemoved for an instance still known on the interface that is left; \
          distinct by (shape, event kinds) / (timeout, answered, stepping)",
     );
     report.assume("a removal up to one second before a record's expiry is accepted (the crate treats the last second of a record as gone)");
-    for r in ["D2", "D3", "D4", "D5"] {
+    for r in ["D2", "D3", "D4", "D5", "D5-interface-loss"] {
         report.floor(r, 50);
     }
     let seed = report.seed;
     let n: u64 = if tier.thorough { 250_000 } else { 4_000 };
     // oversleep is part of C11's quantifier, not of C05's "plus at most one scheduling step"
-    run_parallel(report, n, threads(), tier.budget_s * 0.9, |i, l| {
+    run_parallel(report, n, threads(), tier.budget_s * 0.8, |i, l| {
         let opts = Opts { stepping: Some(match i % 4 { 0 => Stepping::Eager(10), 1 => Stepping::Eager(50), _ => Stepping::Lazy }), ..Opts::default() };
         run_one(util::mix(seed, 0xC05_0000 + i), "C05", &opts, l);
     });
@@ -569,5 +602,10 @@ pub fn run_c05(report: &Report, tier: &Tier) {
     let nv: u64 = if tier.thorough { 20_000 } else { 600 };
     run_parallel(report, nv, threads(), tier.budget_s * 0.1, |i, l| {
         verify_case(util::mix(seed, 0xC05_7000 + i), l);
+    });
+    // no removal of what is still known on an interface that is left
+    let np: u64 = if tier.thorough { 20_000 } else { 400 };
+    run_parallel(report, np, threads(), tier.budget_s * 0.1, |i, l| {
+        interface_loss_case(util::mix(seed, 0xC05_9000 + i), "C05", l);
     });
 }
